@@ -634,8 +634,8 @@ fn queue_ops_scenarios(out: &mut NdjsonWriter, seed: u64, n: u64) {
             r.prune(base + 3, -1);
             r.scan(base + 9, 4);
             let top = r.chain.top();
-            r.prune(top - 2, 3);
-            r.prune(top - 2, 3);   // a second time: nothing left to do
+            r.prune(top - 2, 5);   // (FoundNote ranges around the island are prunable too)
+            r.prune(top - 2, 5);   // a second time: nothing left to do
         }
         if i % 4 == 2 {
             // a rewind deeper than the pruning depth: the chain grows to 125 blocks, everything is scanned, the wallet
